@@ -418,6 +418,50 @@ def check_parallel_regions(model, rep):
            'the post-region test for missing points changed', statement='missing-raises')
 
 
+def check_out_aliases(model, rep):
+    """R16.6: the lock of a shared output array is found through the NAME of the variable occurring in the emitted statement
+    (_BlockBuilder._iter_locks looks the statement's variables up in _shared_arrays).  Inside the in-place protocol
+    (_compile_with_out) everything that denotes (a view of) the output must therefore remain an expression over `out`; binding it
+    to a fresh variable (eval / assign_to(new_var ...)) yields an alias that is not registered, and later writes through the alias are
+    emitted without the lock."""
+    bb = model.cls('evaluable:_BlockBuilder')
+    il = bb.members.get('_iter_locks')
+    if il is None or '_shared_arrays.get' not in src(il.func.node) or '.variables' not in src(il.func.node):
+        raise AnalysisError('_BlockBuilder._iter_locks no longer selects locks by variable name: R16.6 needs review')
+    n = 0
+    for f in model.functions.values():
+        if f.name != '_compile_with_out' or f.module.short != 'evaluable':
+            continue
+        pos = params(f.node)[0]
+        if len(pos) < 3:
+            raise AnalysisError(f'{f.key}: unexpected signature {pos}')
+        out = pos[2]
+        n += 1
+        taint = {out}
+        changed = True
+        while changed:
+            changed = False
+            for s_ in ast.walk(f.node):
+                if isinstance(s_, ast.Assign) and len(s_.targets) == 1 and isinstance(s_.targets[0], ast.Name) and s_.targets[0].id not in taint:
+                    if taint & {x.id for x in ast.walk(s_.value) if isinstance(x, ast.Name)}:
+                        taint.add(s_.targets[0].id)
+                        changed = True
+        bad = None
+        for c in calls_in(f.node):
+            m = method_name(c)
+            if m == 'eval' or (m == 'assign_to' and c.args and 'new_var' in src(c.args[0])):
+                rhs = c.args[-1] if c.args else None
+                if rhs is not None and taint & {x.id for x in ast.walk(rhs) if isinstance(x, ast.Name)}:
+                    bad = c
+                    break
+        ok = bad is None
+        rep.ob('R16.6', f.key, f.where(bad) if bad is not None else f.where(), ok, f'views of `{out}` ({", ".join(sorted(taint - {out})) or "none"}) stay expressions over `{out}`: writes through them carry its lock' if ok else
+               f'`{src(bad)[:80]}` binds a view of the output `{out}` to a fresh variable: the alias is not in _shared_arrays, so in a parallel loop writes through it (numpy.add.at, +=) are emitted without `with lock` '
+               'and concurrent workers lose updates', statement='out-alias')
+    if n < 6:
+        raise AnalysisError(f'only {n} _compile_with_out implementations found')
+
+
 def run(model, rep, tier):
     rep.explanation = (
         'R16.1 lock discipline of parallel.range: every load/store of the shared counter lies inside `with self._lock`, claim/bound-test/increment form one critical section, the counter is created '
@@ -432,12 +476,14 @@ def run(model, rep, tier):
     rep.rule('R16.2', '_fork typestate: child always _exit, parent kills/re-raises/waits/raises')
     rep.rule('R16.3', 'every generated statement is emitted under the locks of the shared arrays it mentions')
     rep.rule('R16.4', 'shared allocation <-> lock registration <-> pre-fork lock; ctxrange for outermost loops only')
+    rep.rule('R16.6', 'in-place protocol: views of a shared output stay expressions over the registered variable (no unregistered aliases)')
     rep.rule('R16.5', 'results crossing a parallel region are in shared memory; every claimed index is answered')
     check_range(model, rep)
     check_fork(model, rep)
     check_builder(model, rep)
     check_shared_alloc(model, rep)
     check_parallel_regions(model, rep)
+    check_out_aliases(model, rep)
     rep.require('R16.1', 5)
     rep.require('R16.2', 14)
     rep.require('R16.3', 14)
